@@ -225,11 +225,21 @@ func c07Run(c *Ctx) {
 	// combination of their trigger characters
 	calpha := []string{"a", "@", ".", "$", "\"", "\\", " ", "0", "-", ":", "Z", "/", "=", "é", "{", "\u0000"}
 	ctxs := []func(sv string) string{
-		func(sv string) string { return `{"c":"COMMAND","msg":"Slow query","attr":{"ns":"d.c","command":{"find":"c","filter":{"f":` + sv + `,"g":{"$in":[1,` + sv + `]}},"$db":"d"}}}` },
-		func(sv string) string { return `{"c":"COMMAND","msg":"Slow query","attr":{"ns":"d.c","command":{"aggregate":"c","pipeline":[{"$match":{"f":` + sv + `}},{"$addFields":{"g":{"$concat":[` + sv + `,"$f"]}}},{"$search":{"text":{"query":` + sv + `,"path":` + sv + `}}}],"$db":"d"}}}` },
-		func(sv string) string { return `{"c":"WRITE","msg":"Slow query","attr":{"ns":"d.c","command":{"q":{"_id":{"$oid":` + sv + `},"d":{"$date":` + sv + `}},"u":{"$set":{"b":{"$binary":{"base64":` + sv + `,"subType":` + sv + `}}}}}}}` },
-		func(sv string) string { return `{"c":"COMMAND","msg":"Slow query","attr":{"ns":` + sv + `,"remote":` + sv + `,"planSummary":` + sv + `,"command":{"find":` + sv + `,"filter":{` + sv + `:1},"sort":{` + sv + `:-1},"$db":` + sv + `}}}` },
-		func(sv string) string { return `{"c":"COMMAND","msg":"Slow query","attr":{"ns":"d.c","command":{"aggregate":"c","pipeline":[{"$lookup":{"from":` + sv + `,"localField":` + sv + `,"foreignField":` + sv + `,"as":` + sv + `}},{"$group":{"_id":` + sv + `}},{"$unwind":` + sv + `},{"$merge":` + sv + `}],"$db":"d"}}}` },
+		func(sv string) string {
+			return `{"c":"COMMAND","msg":"Slow query","attr":{"ns":"d.c","command":{"find":"c","filter":{"f":` + sv + `,"g":{"$in":[1,` + sv + `]}},"$db":"d"}}}`
+		},
+		func(sv string) string {
+			return `{"c":"COMMAND","msg":"Slow query","attr":{"ns":"d.c","command":{"aggregate":"c","pipeline":[{"$match":{"f":` + sv + `}},{"$addFields":{"g":{"$concat":[` + sv + `,"$f"]}}},{"$search":{"text":{"query":` + sv + `,"path":` + sv + `}}}],"$db":"d"}}}`
+		},
+		func(sv string) string {
+			return `{"c":"WRITE","msg":"Slow query","attr":{"ns":"d.c","command":{"q":{"_id":{"$oid":` + sv + `},"d":{"$date":` + sv + `}},"u":{"$set":{"b":{"$binary":{"base64":` + sv + `,"subType":` + sv + `}}}}}}}`
+		},
+		func(sv string) string {
+			return `{"c":"COMMAND","msg":"Slow query","attr":{"ns":` + sv + `,"remote":` + sv + `,"planSummary":` + sv + `,"command":{"find":` + sv + `,"filter":{` + sv + `:1},"sort":{` + sv + `:-1},"$db":` + sv + `}}}`
+		},
+		func(sv string) string {
+			return `{"c":"COMMAND","msg":"Slow query","attr":{"ns":"d.c","command":{"aggregate":"c","pipeline":[{"$lookup":{"from":` + sv + `,"localField":` + sv + `,"foreignField":` + sv + `,"as":` + sv + `}},{"$group":{"_id":` + sv + `}},{"$unwind":` + sv + `},{"$merge":` + sv + `}],"$db":"d"}}}`
+		},
 	}
 	maxLen := 3
 	if c.Thorough() {
@@ -485,7 +495,7 @@ func stripNeighbours(out, s1, s2 string, pos int) (string, bool) {
 func init() {
 	register(&PropDef{
 		ID: "C07", Level: "exploration",
-		Rule: "(i) all byte strings of length 1 and 2 and all 3-byte strings over a 31-symbol JSON-structural alphabet; top-level values of every token class and legacy text lines; (ii) every truncation and every single-byte edit (deletion or substitution by one of 12 structural bytes) at every offset of the seed lines (one per grammar slot; quick: 8 seeds); (iii) every vocabulary path x 53 value kinds (incl. number/null/bool/array/document under $date, $oid, $binary.base64, $binary) x 5 tree shapes x 10 placements; (iv) nesting ladders up to depth 3 000 in-process and 20 000 through the CLI; (v) each bad-line class first/middle/last in a 3-line stream through the CLI, lines of 65 000 … 1 MiB bytes; flag sets incl. field-name, selective and encrypt modes. Oracle: no panic, <=1 well-formed output line, neighbours unaffected, over-long lines rejected explicitly. distinct = distinct lines / (seed, offset) pairs / CLI scenarios",
+		Rule:        "(i) all byte strings of length 1 and 2 and all 3-byte strings over a 31-symbol JSON-structural alphabet; top-level values of every token class and legacy text lines; (ii) every truncation and every single-byte edit (deletion or substitution by one of 12 structural bytes) at every offset of the seed lines (one per grammar slot; quick: 8 seeds); (iii) every vocabulary path x 53 value kinds (incl. number/null/bool/array/document under $date, $oid, $binary.base64, $binary) x 5 tree shapes x 10 placements; (iv) nesting ladders up to depth 3 000 in-process and 20 000 through the CLI; (v) each bad-line class first/middle/last in a 3-line stream through the CLI, lines of 65 000 … 1 MiB bytes; flag sets incl. field-name, selective and encrypt modes. Oracle: no panic, <=1 well-formed output line, neighbours unaffected, over-long lines rejected explicitly. distinct = distinct lines / (seed, offset) pairs / CLI scenarios",
 		Assumptions: []string{"lines edited in more than one byte and nesting deeper than the 64 KiB line limit allows are not explored"},
 		Run:         c07Run,
 	})
